@@ -219,6 +219,32 @@ def check_tree(ctx, drv, desc, origin, use_gcc, expect=None):
                             # measured, not an alarm: `Exclude.sem` has no symbolic links (its file system is a map from real paths)
                             ctx.dist["engines_differ_with_links" if not em["no_links"] else "engines_differ_without_links"] += 1
                     out["engines"] = {k2: em[k2] for k2 in ("eng_ok", "both_ok", "agree", "x_triples", "i_triples", "x_exc", "i_exc")}
+                    # ... with `-include` files (Props/C04EnginesForced.lean): asked only where the request has one
+                    # (without, `EngOKF` = `EngOK` and the block above has already compared the two runs)
+                    if not em["no_forced"]:
+                        ef = drv.ask(dict(eq, op="engines_f"))
+                        if "eng_okf" not in ef:
+                            ctx.corr_break("engines_f", case, "reply", ef)
+                        else:
+                            ctx.dist["engines_f_requests_with_forced_includes"] += 1
+                            ctx.dist["engines_f_forced_includes"] += ef["n_forced"]
+                            ctx.dist["engines_f_side_condition_EngOKF"] += 1 if ef["eng_okf"] else 0
+                            for k2 in ("all_c", "both_ok", "agree"):
+                                ctx.dist[f"engines_f_{k2}"] += 1 if ef[k2] else 0
+                            if ef["eng_ok"] or not ef["has_forced"] or ef["both_ok"] != em["both_ok"] or ef["agree"] != em["agree"]:
+                                ctx.corr_break("engines_f: reply inconsistent with op engines on the same request", case, em, ef)
+                            if ef["eng_okf"] and ef["both_ok"]:
+                                ctx.dist["engines_f_theorem_applies"] += 1
+                                ctx.dist["engines_f_triples_compared"] += ef["x_triples"]
+                                if not ef["agree"]:
+                                    # contradicts C04.engines_agree_forced_checked: the driver is not running what was proved
+                                    ctx.corr_break("engines_f: Exclude engine != Inc.find although EngOKF and both runs succeed",
+                                                   case, "theorem", ef)
+                            elif ef["both_ok"]:
+                                ctx.dist["engines_f_agree_outside_side_condition"] += 1 if ef["agree"] else 0
+                            elif ef["eng_okf"]:
+                                ctx.dist["engines_f_EngOKF_but_a_run_failed"] += 1
+                            out["engines_f"] = {k2: ef[k2] for k2 in ("eng_okf", "both_ok", "agree", "x_triples", "n_forced")}
                 # the memo: the observed history of look-ups through the memo model and the memo-free rule
                 for k, e in enumerate(desc["entries"]):
                     hist = [x for x in real["lookups"] if x[0] == f"p{k}"]
@@ -296,6 +322,13 @@ def forced_once_stream(ctx, drv):
         e = {"file": "src/main.c", "directory": ".", "flags": [["I", "inc1"]], "defines": [], "forced": forced}
         e["argv"] = ["gcc", "-I", "inc1"] + [x for f in forced for x in ("-include", f)] + ["-c", "src/main.c"]
         check_tree(ctx, drv, {"files": files, "links": [], "entries": [e]}, "forced-once:" + nm, use_gcc=True)
+    # order of the -include files (C04.forced_in_order; the second header reads a macro the first defines, and the other way round)
+    fa, fb = ["#define FA 1", "#ifdef FB", "int a1;", "#else", "int a2;", "#endif"], ["#define FB 1", "#ifdef FA", "int b1;", "#else", "int b2;", "#endif"]
+    for nm, forced in (("order-ab", ["fa.h", "fb.h"]), ("order-ba", ["fb.h", "fa.h"]), ("order-aba", ["fa.h", "fb.h", "fa.h"])):
+        files = {"src/main.c": ["int m1;", "#if defined(FA) && defined(FB)", "int m3;", "#endif"], "inc1/fa.h": fa, "inc1/fb.h": fb}
+        e = {"file": "src/main.c", "directory": ".", "flags": [["I", "inc1"]], "defines": [], "forced": forced}
+        e["argv"] = ["gcc", "-I", "inc1"] + [x for f in forced for x in ("-include", f)] + ["-c", "src/main.c"]
+        check_tree(ctx, drv, {"files": files, "links": [], "entries": [e]}, "forced-" + nm, use_gcc=True)
 
 
 def run(ctx, drv, cap=None):
